@@ -246,6 +246,27 @@ def c03():
         note((w, tuple(sorted(tab.items())), s, seeds, tuple(hist[:6])))
 
 
+def c03_text():
+    """text-level API on the real classes: one object serving interleaved anonymize / undo requests must answer
+    each exactly like a fresh object does"""
+    lines4 = ["ntp server 8.8.4.4\n", "ip address 11.22.33.44 255.255.255.0\n", "peer 100.64.3.9/30 x 11.22.33.44\n"]
+    lines6 = ["neighbor 2001:db8::1 remote-as 65000\n", "ipv6 route 2001:db8:aa::/48 fe80::1\n"]
+    for c in REAL_CFG[:4]:
+        for mk, lines in ((mk4, lines4), (mk6, lines6)):
+            shared = mk(c)
+            hist = []
+            for _ in range(8 if TIER == "quick" else 60):
+                ln, undo = RNG.choice(lines), RNG.random() < 0.5
+                hist.append((ln, undo))
+                got = anonymize_ip_addr(shared, ln, undo)
+                exp = anonymize_ip_addr(mk(c), ln, undo)
+                note(("text-history", c["salt"], ln, undo, len(hist)))
+                if got != exp:
+                    fail("C03.text-history", {"config": c, "history": hist, "got": got, "fresh": exp},
+                         "answer depends on earlier anonymize/undo requests", "_anonymize_match")
+                    break
+
+
 def in_net(ip, net):
     return ipaddress.ip_address(ip) in net
 
@@ -357,6 +378,34 @@ def c05():
                      "IpAnonymizer.__init__")
 
 
+def c05_nested():
+    """overlapping / nested preserved networks: every member of any listed network stays as written"""
+    cfgs = [["10.0.0.0/8", "10.1.0.0/16"], ["10.1.0.0/16", "10.0.0.0/8", "192.168.1.1"], ["172.16.0.0/24", "172.16.0.0/12"],
+            ["10.0.0.0/8", "172.16.0.0/12", "192.168.0.0/16", "10.1.0.0/16", "172.16.5.0/24", "192.168.1.1"],
+            ["192.168.1.1", "192.168.0.0/16", "192.168.2.0/24"]]
+    for nets_txt in cfgs:
+        for hb in (0, 8):
+            an = IpAnonymizer("nest", None, list(nets_txt), preserve_suffix=hb)
+            nets = [ipaddress.ip_network(n) for n in nets_txt]
+            pts = []
+            for net in nets:
+                base, size = int(net.network_address), net.num_addresses
+                pts += [base, base + size - 1, base + size // 2]
+                pts += [base + RNG.randrange(size) for _ in range(6 if TIER == "quick" else 60)]
+                # just after every inner block that lies inside this one
+                for inner in nets:
+                    e = int(inner.network_address) + inner.num_addresses
+                    if base <= e < base + size:
+                        pts += [e, e + 1, min(e + 65536, base + size - 1)]
+            for a in pts:
+                txt = "x %s y" % ipaddress.IPv4Address(a)
+                note(("nested", tuple(nets_txt), hb, a))
+                out = anonymize_ip_addr(an, txt)
+                if out != txt:
+                    fail("C05.preserved-nested", {"preserve_networks": nets_txt, "host_bits": hb, "line": txt, "out": out},
+                         "address inside a preserved network changed", "should_anonymize")
+
+
 def c_text_consistency(tag):
     """What is written for an address in text equals the integer mapping, except for masks and members of
     preserved networks (left as written); block boundaries and their neighbours in particular."""
@@ -423,15 +472,17 @@ def c17():
                      "dump_to_file")
 
 
-CHECKS = {"C01": [c01_tiny, c01_real, lambda: c_text_consistency("C01.text")], "C02": [c02], "C03": [c03], "C04": [c04],
-          "C05": [c05, lambda: c_text_consistency("C05.text")], "C17": [c17]}
+CHECKS = {"C01": [c01_tiny, c01_real, lambda: c_text_consistency("C01.text")], "C02": [c02], "C03": [c03, c03_text], "C04": [c04],
+          "C05": [c05, c05_nested, lambda: c_text_consistency("C05.text")], "C17": [c17]}
 BOUNDS = {
     "C01": "real base class at widths 1..4 (quick) / 1..5 (thorough), salter truth tables (all for width<=3), all host-bit counts, "
            "5 seed sets, all address pairs; real IpAnonymizer/IpV6Anonymizer: 7 configurations x every common-prefix length x 2/20 pairs",
     "C02": "same tiny space with fresh-instance undo; 7 real configurations; 2 text lines x 3 configurations for file-level undo",
-    "C03": "300/5000 tiny configurations x random anonymize/undo histories of length 3*2^w vs fresh instance per request",
+    "C03": "300/5000 tiny configurations x random anonymize/undo histories of length 3*2^w vs fresh instance per request; "
+           "text-level API: 4 real configurations x 2 families x 8/60 interleaved anonymize/undo lines vs fresh instance",
     "C04": "tiny space (prefix both ways, host bits, head independence); 7 real configurations x boundary and random addresses, both families",
-    "C05": "all 64 masks x 32 one-bit perturbations through the real _is_mask; 300/5000 preserved and outside addresses",
+    "C05": "all 64 masks x 32 one-bit perturbations through the real _is_mask; 300/5000 preserved and outside addresses; "
+           "5 nested/overlapping preserved-network lists x 2 host-bit counts x boundary, post-inner-block and random members",
     "C17": "7 configurations x 30/400 generated lines, dump parsed back and compared with the applied replacements and a fresh mapping",
 }
 
